@@ -74,6 +74,77 @@ func simtestMain() {
 	check("other seed, other schedule", r1.TraceHash != r3.TraceHash, fmt.Sprintf("%016x vs %016x", r1.TraceHash, r3.TraceHash))
 	rp := simrt.Run(simrt.Config{Replay: r1.Log, Pool: simrt.PoolConfig{Policy: simrt.PoolIsolating}}, step(true), step(true), step(true))
 	check("recorded decision log replays the schedule", rp.TraceHash == r1.TraceHash, "")
+	// 6: buffered channels of the code under test (a producer, a consumer and a waiter per
+	// pipeline; three pipelines; goroutines of their own: task slots are used again)
+	pipeline := func(n int, out *int) func() {
+		return func() {
+			ch := simrt.ChanMake(make(chan int, 2), "simtest.ch#1")
+			res := simrt.ChanMake(make(chan int, 1), "simtest.ch#2")
+			var wg sync.WaitGroup
+			simrt.WGAdd(&wg, 2, "simtest.ch#3")
+			simrt.Go(func() {
+				defer simrt.WGDone(&wg, "simtest.ch#4")
+				for i := 1; i <= n; i++ {
+					simrt.ChanSend(ch, i, "simtest.ch#5")
+				}
+				simrt.ChanClose(ch, "simtest.ch#6")
+			}, "simtest.ch#7")
+			simrt.Go(func() {
+				defer simrt.WGDone(&wg, "simtest.ch#8")
+				sum := 0
+				for {
+					v, ok := simrt.ChanRecv2(ch, "simtest.ch#9")
+					if !ok {
+						break
+					}
+					sum += v
+				}
+				simrt.ChanSend(res, sum, "simtest.ch#10")
+			}, "simtest.ch#11")
+			simrt.WGWait(&wg, "simtest.ch#12")
+			*out = simrt.ChanRecv(res, "simtest.ch#13")
+		}
+	}
+	chanOK, chanReplay := true, true
+	chanTraces := map[uint64]bool{}
+	raceDelta()
+	for seed := uint64(1); seed <= 60; seed++ {
+		var got, again [3]int
+		c1 := run(seed, int(seed%simrt.NumStrategies), pipeline(10, &got[0]), pipeline(7, &got[1]), pipeline(1, &got[2]))
+		if c1.Deadlock != "" || c1.Overflow || got != [3]int{55, 28, 1} {
+			chanOK = false
+		}
+		chanTraces[c1.TraceHash] = true
+		c2 := simrt.Run(simrt.Config{Replay: c1.Log, Pool: simrt.PoolConfig{Policy: simrt.PoolIsolating}}, pipeline(10, &again[0]), pipeline(7, &again[1]), pipeline(1, &again[2]))
+		if c2.TraceHash != c1.TraceHash || again != got {
+			chanReplay = false
+		}
+	}
+	chanRace := raceDelta()
+	check("buffered channels: every schedule gives the sequential sums", chanOK, fmt.Sprintf("%d distinct schedules of 60", len(chanTraces)))
+	check("buffered channels: decision log replays", chanReplay, "")
+	if raceOn {
+		check("buffered channels: hand-over is not reported as a race", !strings.Contains(chanRace, "DATA RACE"), trunc(chanRace, 200))
+	}
+	// three senders, a buffer of one, nobody receives before all have sent (seeded change C01-s)
+	stuck := func() {
+		errs := simrt.ChanMake(make(chan int, 1), "simtest.stuck#1")
+		var wg sync.WaitGroup
+		simrt.WGAdd(&wg, 3, "simtest.stuck#2")
+		for i := 0; i < 3; i++ {
+			i := i
+			simrt.Go(func() { defer simrt.WGDone(&wg, "simtest.stuck#3"); simrt.ChanSend(errs, i, "simtest.stuck#4") }, "simtest.stuck#5")
+		}
+		simrt.WGWait(&wg, "simtest.stuck#6")
+	}
+	stuckFound := 0
+	for seed := uint64(1); seed <= 10; seed++ {
+		if r := run(seed, int(seed%simrt.NumStrategies), stuck); strings.Contains(r.Deadlock, "chansend") {
+			stuckFound++
+		}
+	}
+	check("full buffered channel with blocked senders is a deadlock", stuckFound == 10, fmt.Sprintf("%d of 10 schedules", stuckFound))
+	raceDelta() // (left-over tasks of deadlocked runs: the simulator's own bookkeeping)
 	// 3: lock-order inversion (some seed must find it; every report must name both tasks)
 	found := false
 	for seed := uint64(1); seed <= 40 && !found; seed++ {
